@@ -867,6 +867,85 @@ fn main() {
         }
     }
 
+    // ---------------------------------------------------------------- references to things that do not exist
+    // "or rendering a one-off string": a one-off template is compiled, checked and rendered in one
+    // call, so a reference the check misses is reached at once (seeded change C06-9: unknown
+    // functions inside component definitions were no longer collected; the VM's lookup panicked).
+    {
+        let kinds: Vec<(&str, &str)> = vec![
+            ("filter", "{{ 1 | zz_nosuch }}"),
+            ("filter-with-args", "{{ 1 | zz_nosuch(a=1) }}"),
+            ("test", "{{ 1 is zz_nosuch }}"),
+            ("negated-test", "{{ 1 is not zz_nosuch }}"),
+            ("function", "{{ zz_nosuch() }}"),
+            ("function-as-argument", "{{ range(end=zz_nosuch()) }}"),
+            ("component", "{{ <ZzNoSuch /> }}"),
+            ("component-with-body", "{% <ZzNoSuch> %}x{% </ZzNoSuch> %}"),
+            ("include", "{% include \"zz-nosuch\" %}"),
+            ("filter-section", "{% filter zz_nosuch %}x{% endfilter %}"),
+            ("set-block-filter", "{% set z | zz_nosuch %}x{% endset %}"),
+        ];
+        let positions: Vec<(&str, &str)> = vec![
+            ("top", "@"),
+            ("if-not-taken", "{% if false %}@{% endif %}"),
+            ("loop-over-nothing", "{% for i in [] %}@{% endfor %}"),
+            ("capture", "{% set c %}@{% endset %}{{ c }}"),
+            ("component-definition-called", "{% component A() %}@{% endcomponent A %}{{ <A /> }}"),
+            ("component-definition-not-called", "{% component A() %}@{% endcomponent A %}x"),
+            ("component-in-component", "{% component A() %}@{% endcomponent A %}{% component B() %}{{ <A /> }}{% endcomponent B %}{{ <B /> }}"),
+            ("call-body", "{% component W() %}{{ body }}{% endcomponent W %}{% <W> %}@{% </W> %}"),
+            ("component-default-argument", "{% component A(x=1) %}{{ x }}{% endcomponent A %}{{ <A x={1} /> }}@"),
+        ];
+        let n_items = (kinds.len() * positions.len()) as u64;
+        run.family(
+            Family::new(
+                "unknown-references-on-the-fly",
+                n_items,
+                &format!("{} kinds of reference to something that does not exist x {} positions (incl. never executed ones and component definitions), through render_str (both modes), Tera::one_off and add_raw_templates followed by a render of whatever was accepted: Ok or Err, no panic", kinds.len(), positions.len()),
+            )
+            .describe(|i| json!({"reference": kinds[i as usize / positions.len()].0, "position": positions[i as usize % positions.len()].0})),
+            |item, acc: &mut Acc| {
+                let (kname, snippet) = kinds[item as usize / positions.len()];
+                let (pname, frame) = positions[item as usize % positions.len()];
+                let src = frame.replace('@', snippet);
+                let case = || json!({"reference": kname, "position": pname, "source": src});
+                let base = Tera::default();
+                let ctx = Context::new();
+                for ae in [true, false] {
+                    match guarded(|| base.render_str(&src, &ctx, ae)) {
+                        Ok(r) => acc.case(true, if r.is_ok() { "render_str:ok" } else { "render_str:err" }),
+                        Err(p) => {
+                            acc.violation(panic_sig("render_str", &p), format!("render_str panicked ({kname} @ {pname}): {p}"), case);
+                            acc.case(true, "render_str:panic");
+                        }
+                    }
+                }
+                match guarded(|| Tera::one_off(&src, &ctx, true)) {
+                    Ok(r) => acc.case(true, if r.is_ok() { "one_off:ok" } else { "one_off:err" }),
+                    Err(p) => {
+                        acc.violation(panic_sig("one_off", &p), format!("Tera::one_off panicked ({kname} @ {pname}): {p}"), case);
+                        acc.case(true, "one_off:panic");
+                    }
+                }
+                let mut t = Tera::default();
+                match guarded(|| t.add_raw_template("a", &src)) {
+                    Ok(Ok(())) => match guarded(|| t.render("a", &ctx)) {
+                        Ok(r) => acc.case(true, if r.is_ok() { "add:ok/render:ok" } else { "add:ok/render:err" }),
+                        Err(p) => {
+                            acc.violation(panic_sig("render-after-add", &p), format!("the template was accepted and its render panicked ({kname} @ {pname}): {p}"), case);
+                            acc.case(true, "add:ok/render:panic");
+                        }
+                    },
+                    Ok(Err(_)) => acc.case(true, "add:err"),
+                    Err(p) => {
+                        acc.violation(panic_sig("add_raw_templates", &p), format!("add_raw_template panicked ({kname} @ {pname}): {p}"), case);
+                        acc.case(true, "add:panic");
+                    }
+                }
+            },
+        );
+    }
+
     // ---------------------------------------------------------------- after a refused delimiter set
     // "whatever the ... delimiter configuration": a set that set_delimiters REFUSES is part of what a
     // caller can do to an instance. Afterwards every registration still has to end in Ok or Err
